@@ -100,8 +100,16 @@ func performUpdate(processAll bool, ctx *processors.Context) {
 				// fail
 				return err
 			}
+			if dirEntry.IsDir() {
+				if filePath != ctx.RootContext().AssemblyDir() {
+					// The assembly files of rules are in the assembly directory itself. Word lists
+					// in sub-directories (include, exclude) are not rules, whatever their name.
+					return filepath.SkipDir
+				}
+				return nil
+			}
 
-			if !dirEntry.IsDir() && path.Ext(dirEntry.Name()) == ".ra" {
+			if path.Ext(dirEntry.Name()) == ".ra" {
 				subs := regex.RuleIdFileNameRegex.FindAllStringSubmatch(dirEntry.Name(), -1)
 				if subs == nil {
 					// continue
